@@ -363,11 +363,25 @@ ImemEdge(st, ins) ==
       walkDown == ins.cls \in {"MVLD", "DADL", "DSBL", "DSLL"}
       cnt(o) == IF ins.cls \in {"WAIT", "EXL", "MVL", "MVLD", "ADCL", "SBCL", "DADL", "DSBL", "DSLL", "DSRL"} THEN st.r.I ELSE o.w
       e(o) == EA(st, o) - IMEM
-  IN \E i \in 1..n : ins.ops[i].k = "IMem" /\ (IF walkDown THEN e(ins.ops[i]) - (cnt(ins.ops[i]) - 1) < 0
+  IN ins.cls \in {"EXL", "MVL", "MVLD", "ADCL", "SBCL", "DADL", "DSBL", "DSLL", "DSRL"} /\
+     \E i \in 1..n : ins.ops[i].k = "IMem" /\ (IF walkDown THEN e(ins.ops[i]) - (cnt(ins.ops[i]) - 1) < 0
                                                           ELSE e(ins.ops[i]) + cnt(ins.ops[i]) - 1 > 255)
 
 \* ---------------------------------------------------------------- what the README does not define
 \* raw external addresses an operand touches (n bytes from its effective address, in walking direction)
+\* an instruction that stores several times and overwrites BP/PX/PY while one of its operands is addressed through them
+\* (the README does not say whether the addresses are formed before the first store)
+SelfMod(st, ins) ==
+  LET n == Len(ins.ops)
+      cnt(o) == IF ins.cls \in Counted THEN st.r.I ELSE IF IsMem(o) THEN o.w ELSE 0
+      dir(o) == IF ins.cls = "MVLD" \/ ins.cls \in {"DADL", "DSBL", "DSLL"} \/ (o.k = "EReg" /\ o.mode = 3 /\ ins.cls # "MV") THEN -1 ELSE 1
+      cellsOf(mode) == CASE mode = "N" -> {} [] mode = "BP_N" -> {BPa} [] mode = "PX_N" -> {PXa} [] mode = "PY_N" -> {PYa}
+                         [] mode = "BP_PX" -> {BPa, PXa} [] mode = "BP_PY" -> {BPa, PYa}
+      used == UNION {IF ins.ops[i].k = "IMem" THEN cellsOf(ins.ops[i].mode) ELSE IF ins.ops[i].k = "EIMem" THEN cellsOf(ins.ops[i].imode) ELSE {} : i \in 1..n}
+      written(o) == IF o.k = "IMem" THEN LET a == EA(st, o) IN {Nx(a, dir(o) * j) : j \in 0..(cnt(o) - 1)} ELSE {}
+  IN /\ ins.cls \in {"EX", "EXL", "MVL", "MVLD", "ADCL", "SBCL", "DADL", "DSBL", "DSLL", "DSRL"}
+     /\ (written(ins.ops[1]) \cup (IF ins.cls \in {"EX", "EXL"} THEN written(ins.ops[2]) ELSE {})) \cap used # {}
+
 RawRange(st, o, cnt, dir) ==
   IF o.k \in {"EAddr", "EReg", "EIMem"} THEN LET a == EA(st, o) IN {a, a + dir * (cnt - 1)} ELSE {}
 PtrCells(st, o) == IF o.k = "EIMem" THEN LET p == RdN(st, IAddr(st, o.imode, o.n), 3) IN {p} ELSE {}
@@ -390,6 +404,7 @@ Unspecified(st, ins) ==
                    \/ ins.ops[2].k # "Reg" /\ \E i \in 0..(st.r.I - 1) : ~IsBcd(Rd(st, Nx(EA(st, ins.ops[2]), -i)))
   IN \/ \E a \in raw : a < 0 \/ a >= M20
      \/ bcdBad
+     \/ SelfMod(st, ins)
      \/ ins.cls \in Counted /\ st.r.I = 0
      \/ autoRegs \cap plainRegs # {}
      \/ stackLow
